@@ -11,7 +11,7 @@ HARNESS = "c02"
 LEAN_MODULES = ["NanoVerif.Props.C02"]
 NS = "NanoVerif.Solver."
 OBLIGATIONS = [NS + t for t in [
-    "done_spec'", "ls_solver_consistent", "ls_status_trichotomy", "ls_result_valid", "budget_overshoot_le",
+    "done_decision", "ls_solver_consistent", "ls_status_trichotomy", "ls_result_valid", "budget_overshoot_le",
     "best_state_is_an_evaluation", "best_state_value", "best_value_nonincreasing", "update_only_on_strict_decrease",
     "nm_status_trichotomy", "nm_budget_overshoot_le", "valueTest_spec", "calls_never_exceed_actual",
 ]]
